@@ -36,7 +36,22 @@ def defining_classes(prog):
 
 
 def run_closure(prog, cls, flag):
+    """the single normally returning path of calculate (refusals such as `if len(gamma) != len(potential): raise` are
+    explored and must be refusals: they raise)"""
+    from ..interp import explore
+    worlds = explore(lambda preset: _run_closure(prog, cls, flag, preset), keep_raised=True)
+    normal = [w for d, ip, w in worlds if ip is not None]
+    if len(normal) == 1:
+        return normal[0]
+    if not normal:
+        raised = [w for d, ip, w in worlds if ip is None]
+        raise raised[0] if raised else Unsupported('calculate has no analysable path')
+    raise Unsupported('calculate has %d data-dependent normally returning paths' % len(normal))
+
+
+def _run_closure(prog, cls, flag, preset=()):
     ip = Interp(prog)
+    ip.preset = list(preset)
     for s, k in (('u', 'curve'), ('g', 'curve'), ('r', 'curve'), ('sigma', 'scalar')):
         ip.declare(s, k)
     o = ip.construct(cls, [], {'apply_hard_core': Const(flag)})
@@ -49,8 +64,8 @@ def run_closure(prog, cls, flag):
     m = ip.find_method(o, 'calculate')
     n_events0 = len(ip.events)
     res = ip.call(m, [r, g], {})
-    return {'ip': ip, 'obj': o, 'res': res, 'inputs': {'r': r, 'gamma': g, 'self.potential': pot},
-            'events': ip.events[n_events0:], 'func': m}
+    return ip, {'ip': ip, 'obj': o, 'res': res, 'inputs': {'r': r, 'gamma': g, 'self.potential': pot},
+                'events': ip.events[n_events0:], 'func': m}
 
 
 def spec_for(cls):
